@@ -398,10 +398,30 @@ func msgSetup(s *rt.Sim, tier string) func() {
 			}
 			return oneOf("op", msgSmallSizes...)
 		}
+		// knob (own stream): the receive states have a pending-byte limit (above every message
+		// size of this run) and the handlers are slow, so that the read loop has to wait for the
+		// receive queue to drain while the peer keeps sending: back-pressure must not cost a message
+		limit := 0
+		if sizeClass == 0 && rt.Choose("cfg.l", 3) == 2 {
+			limit = []int{2000, 4096}[rt.Choose("cfg.l", 2)]
+			rt.Hit("msg.receive-limit-and-slow-handler")
+		}
 		ep := newEnginePair(ncfg)
 		sm := streamStateMap(0)
-		cl := newEndpoint("A:stream", ep.mA, 0x33, sm, streamIdle, protocol.ProtocolRoleClient, protocol.ProtocolModeNodeToNode, rawFromCbor)
-		sv := newEndpoint("B:stream", ep.mB, 0x33, sm, streamIdle, protocol.ProtocolRoleServer, protocol.ProtocolModeNodeToNode, rawFromCbor)
+		smCl, smSv := sm, sm
+		if limit > 0 {
+			// the library applies a state's limit to its own send queue as well: each side
+			// carries the limit only in the state in which it receives
+			smCl, smSv = streamStateMap(0), streamStateMap(0)
+			e := smCl[streamBusy]
+			e.PendingMessageByteLimit = limit
+			smCl[streamBusy] = e
+			e = smSv[streamIdle]
+			e.PendingMessageByteLimit = limit
+			smSv[streamIdle] = e
+		}
+		cl := newEndpoint("A:stream", ep.mA, 0x33, smCl, streamIdle, protocol.ProtocolRoleClient, protocol.ProtocolModeNodeToNode, rawFromCbor)
+		sv := newEndpoint("B:stream", ep.mB, 0x33, smSv, streamIdle, protocol.ProtocolRoleServer, protocol.ProtocolModeNodeToNode, rawFromCbor)
 		rounds := 1 + pick("cfg", 3)
 		maxPer := 1 + pick("cfg", 30)
 		if sizeClass == 2 {
@@ -409,6 +429,16 @@ func msgSetup(s *rt.Sim, tier string) func() {
 		}
 		nsenders := 1 + pick("cfg", 3)
 		slowHandler := chance("cfg", 1, 3)
+		if limit > 0 {
+			slowHandler = true
+		}
+		handlerNap := func() {
+			d := oneOf("op", time.Millisecond, 500*time.Millisecond, 10*time.Second)
+			if limit > 0 && d > 500*time.Millisecond {
+				d = 500 * time.Millisecond // the read loop polls every millisecond while it waits
+			}
+			sleep(d)
+		}
 		type sentRec struct {
 			tag          uint32
 			data         []byte
@@ -420,7 +450,7 @@ func msgSetup(s *rt.Sim, tier string) func() {
 		backGot := make(chan struct{}, 8)
 		sv.onMsg = func(m protocol.Message) error {
 			if slowHandler && chance("op", 1, 5) {
-				sleep(oneOf("op", time.Millisecond, 500*time.Millisecond, 10*time.Second))
+				handlerNap()
 			}
 			if m.Type() == 1 {
 				turnGot <- struct{}{}
@@ -429,7 +459,7 @@ func msgSetup(s *rt.Sim, tier string) func() {
 		}
 		cl.onMsg = func(m protocol.Message) error {
 			if slowHandler && chance("op", 1, 5) {
-				sleep(oneOf("op", time.Millisecond, 500*time.Millisecond, 10*time.Second))
+				handlerNap()
 			}
 			if m.Type() == 3 {
 				backGot <- struct{}{}
